@@ -49,7 +49,7 @@ def grammar_mutants(f):
     out.append(("order", rebuild([toks[0], toks[2], toks[1]] + toks[3:])))
     out.append(("beginstring", rebuild(["8=FIX.4.2"] + toks[1:])))
     out.append(("no9", rebuild([toks[0]] + toks[2:])))
-    for k in (1, 5, 9, 12, len(f) // 2, len(f) - 8, len(f) - 2, len(f) - 1):
+    for k in sorted(set(list(range(1, 14)) + [len(f) // 2, len(f) - 8, len(f) - 2, len(f) - 1])):    # every cut inside BeginString too
         out.append(("trunc%d" % k, f[:k]))
     return out
 
